@@ -83,7 +83,12 @@ func (dist *GeometricDistribution) LogPdf(r Scalar, x ConstScalar) error {
     return nil
   }
 
-  r.Mul(x, dist.p2)
+  // (1-p)^k (where 0^0 = 1)
+  if x.GetFloat64() == 0.0 {
+    r.SetFloat64(0.0)
+  } else {
+    r.Mul(x, dist.p2)
+  }
   r.Add(r, dist.p1)
 
   return nil
